@@ -1470,7 +1470,7 @@ func TestVerifC20(t *testing.T) {
 	r.SetRule("one case = one random history of source edits (metric create/edit/rename incl. reuse of freed names, groups with overlapping prefixes created/renamed/toggled, namespaces, dashboards, prom configs, the journal-dump marker) interleaved with partial deliveries (random item/byte limits, cut batches, loader errors) to 7 judged real replicas (2 plain, 2 compact, 3 agents; an eighth agent that switches between the two compact journals is observed only), Save and restart from intact or truncated images (slice- and file-backed, 5% with >512 KiB journals spanning several chunks), judged at every sync point. Non-trivial = at least one rename, one partial delivery and one group change; distinct = distinct operation sequences.")
 	r.Assume("source events look like the metadata engine's journal rows: FieldMask has only the namespace bit, no Metadata; names are unique per entity type at the source; namespaces are never renamed")
 	r.Assume("events cross every hop TL-encoded, as over RPC")
-	n := r.N(600, 20000)
+	n := r.N(1000, 20000)
 	first := 0
 	if p := os.Getenv("VERIF_REPLAY"); p != "" {
 		var rep struct {
